@@ -4,7 +4,8 @@ C04 — Exact singularity is reported, never silently solved.
 
 About `Slu.LU.luFactor` (exact arithmetic): a nonzero `info` is `j+1` for the FIRST column `j` whose
 pivot candidates are all exactly zero (or absent); the columns before it form a valid factorization
-(the full invariant of C02 holds for them); success implies a nonzero diagonal of U; and the
+(the full invariant of C02 holds for them); success implies a nonzero diagonal of U — both for
+every threshold `0 ≤ u ≤ 1`, including `u = 0` (any nonzero diagonal accepted); and the
 driver glue returns the right-hand side untouched without solving.
 -/
 namespace Slu.LU
@@ -84,7 +85,7 @@ theorem luFactor_info_iff (laws : MagLaws K) (P : Params K Rat) (b : Bool) (j : 
 /-- **C04 (leading block).** When column `j` is reported, the pivots chosen before it form a valid
 factorization of the first `j` columns: the whole C02 invariant (identity, unit lower L, nonzero
 diagonal, distinct pivot rows, multiplier bounds) holds for them. -/
-theorem luFactor_leading_block (laws : MagLaws K) (P : Params K Rat) (hu0 : 0 < P.u) (hu1 : P.u ≤ 1)
+theorem luFactor_leading_block (laws : MagLaws K) (P : Params K Rat) (hu0 : 0 ≤ P.u) (hu1 : P.u ≤ 1)
     (hcol : ∀ j, (P.col j).size = P.m) (b : Bool) (j : Nat) (h : (luFactor P b).info = j + 1) :
     Inv P (run P b j) j := by
   rcases luFactor_info_range laws P b with h0 | ⟨j', _, h1, h2, _⟩
@@ -94,7 +95,7 @@ theorem luFactor_leading_block (laws : MagLaws K) (P : Params K Rat) (hu0 : 0 < 
     exact run_inv laws P hu0 hu1 hcol b j' h2
 
 /-- **C04 (success is never reported with a zero on U's diagonal).** -/
-theorem luFactor_success_diag_nonzero (laws : MagLaws K) (P : Params K Rat) (hu0 : 0 < P.u) (hu1 : P.u ≤ 1)
+theorem luFactor_success_diag_nonzero (laws : MagLaws K) (P : Params K Rat) (hu0 : 0 ≤ P.u) (hu1 : P.u ≤ 1)
     (hcol : ∀ j, (P.col j).size = P.m) (b : Bool) (h : (luFactor P b).info = 0) (k : Nat) (hk : k < P.n) :
     ((luFactor P b).U.getD k #[]).getD k 0 ≠ 0 := by
   rw [luFactor_eq_run] at h ⊢
